@@ -103,7 +103,7 @@ class Ctx:
             "evaluations": int(self.evaluations),
             "distinct_nontrivial": len(self.distinct),
             "rule": self.rule,
-            "samples": self.samples[:5] or [],
+            "samples": self.samples[:5] or [{"note": "no individual case was sampled in this run", "counters": dict(self.counters)}],
             "known_findings_seen": self.kf_seen,
             "counters": self.counters,
         }
